@@ -65,8 +65,19 @@ fn gen_pattern(rng: &mut Rng) -> String {
         15 => "{foo,bar}*".to_string(),
         0 => format!("foo>={}", v1),
         1 => format!("foo>{}", v1),
-        2 => format!("foo<{}", v1),
-        3 => format!("foo>={}<{}", v1, v2),
+        2 => {
+            if rng.chance(1, 2) {
+                format!("foo<{}", v1)
+            } else {
+                format!("foo<={}", v1)
+            }
+        }
+        3 => match rng.below(4) {
+            0 => format!("foo>={}<{}", v1, v2),
+            1 => format!("foo>{}<={}", v1, v2),
+            2 => format!("foo>={}<={}", v1, v2),
+            _ => format!("foo>{}<{}", v1, v2),
+        },
         4 => "foo>0".to_string(),
         5 => "foo-[0-9]*".to_string(),
         6 => "fo*-[0-9]*".to_string(),
@@ -229,6 +240,182 @@ fn model_winner<'a>(a: &'a str, b: &'a str, letters: Letters) -> Option<&'a str>
     })
 }
 
+// ---------------------------------------------------------------------------
+// Independent model of `matches` for the pattern shapes this check generates
+// (C06 needs a ground truth for "neither name matches" and "the result matches"
+// that is not the code under test).  Written from the statements of the given
+// properties: a dewey pattern BASE op V [op V] matches a name exactly when the
+// text before the name's last '-' equals BASE byte for byte and the text after
+// it satisfies every bound (a name without '-' never matches); a brace pattern
+// matches when one of its csh-style expansions does; a pattern with '*', '?',
+// '[' or ']' is a shell glob over the whole name; anything else matches only
+// the identical string.  The model declines (None) on anything outside those
+// shapes or outside the dewey model's domain.
+// ---------------------------------------------------------------------------
+
+fn glob_model(p: &[char], n: &[char]) -> Option<bool> {
+    if p.is_empty() {
+        return Some(n.is_empty());
+    }
+    match p[0] {
+        '*' => {
+            for k in 0..=n.len() {
+                if glob_model(&p[1..], &n[k..])? {
+                    return Some(true);
+                }
+            }
+            Some(false)
+        }
+        '?' => {
+            if n.is_empty() {
+                Some(false)
+            } else {
+                glob_model(&p[1..], &n[1..])
+            }
+        }
+        '[' => {
+            let close = p.iter().skip(2).position(|&c| c == ']').map(|i| i + 2)?;
+            let mut set = &p[1..close];
+            let negate = matches!(set.first(), Some('!'));
+            if negate {
+                set = &set[1..];
+            }
+            if n.is_empty() {
+                return Some(false);
+            }
+            let c = n[0];
+            let mut hit = false;
+            let mut i = 0;
+            while i < set.len() {
+                if i + 2 < set.len() && set[i + 1] == '-' {
+                    if set[i] <= c && c <= set[i + 2] {
+                        hit = true;
+                    }
+                    i += 3;
+                } else {
+                    if set[i] == c {
+                        hit = true;
+                    }
+                    i += 1;
+                }
+            }
+            if hit != negate {
+                glob_model(&p[close + 1..], &n[1..])
+            } else {
+                Some(false)
+            }
+        }
+        ']' => None,
+        c => {
+            if n.first() == Some(&c) {
+                glob_model(&p[1..], &n[1..])
+            } else {
+                Some(false)
+            }
+        }
+    }
+}
+
+fn version_cmp_model(a: &str, b: &str) -> Option<std::cmp::Ordering> {
+    let (ca, ra) = dewey_model(a, Letters::Rank)?;
+    let (cb, rb) = dewey_model(b, Letters::Rank)?;
+    // a version pair the letter-weight finding affects is left to the pair oracle
+    let (xa, _) = dewey_model(a, Letters::AsciiCode)?;
+    let (xb, _) = dewey_model(b, Letters::AsciiCode)?;
+    let cmp = |p: &Vec<i128>, q: &Vec<i128>| {
+        let n = p.len().max(q.len());
+        for i in 0..n {
+            let x = p.get(i).copied().unwrap_or(0);
+            let y = q.get(i).copied().unwrap_or(0);
+            if x != y {
+                return x.cmp(&y);
+            }
+        }
+        std::cmp::Ordering::Equal
+    };
+    let rank = cmp(&ca, &cb).then(ra.cmp(&rb));
+    let ascii = cmp(&xa, &xb).then(ra.cmp(&rb));
+    if rank != ascii {
+        return None;
+    }
+    Some(rank)
+}
+
+fn model_matches(pattern: &str, name: &str) -> Option<bool> {
+    if pattern.contains(['{', '}']) {
+        // one level of groups only
+        let open = pattern.find('{')?;
+        let close = open + pattern[open..].find('}')?;
+        if pattern[open + 1..close].contains('{') || pattern[..open].contains('}') {
+            return None;
+        }
+        let mut undecided = false;
+        for alt in pattern[open + 1..close].split(',') {
+            let exp = format!("{}{}{}", &pattern[..open], alt, &pattern[close + 1..]);
+            match model_matches(&exp, name) {
+                Some(true) => return Some(true),
+                Some(false) => {}
+                None => undecided = true,
+            }
+        }
+        return if undecided { None } else { Some(false) };
+    }
+    if pattern.contains(['<', '>']) {
+        // BASE op V  |  BASE op1 V1 op2 V2 with op1 in {>, >=} and op2 in {<, <=}
+        let b = pattern.as_bytes();
+        let mut ops: Vec<(usize, usize, u8, bool)> = Vec::new(); // (start, end, '<'|'>', or_equal)
+        let mut i = 0;
+        while i < b.len() {
+            if b[i] == b'<' || b[i] == b'>' {
+                let eq = b.get(i + 1) == Some(&b'=');
+                ops.push((i, i + 1 + eq as usize, b[i], eq));
+                i += 1 + eq as usize;
+            } else {
+                i += 1;
+            }
+        }
+        let bounds: Vec<(u8, bool, &str)> = match ops.len() {
+            1 => vec![(ops[0].2, ops[0].3, &pattern[ops[0].1..])],
+            2 if ops[0].2 == b'>' && ops[1].2 == b'<' => vec![
+                (ops[0].2, ops[0].3, &pattern[ops[0].1..ops[1].0]),
+                (ops[1].2, ops[1].3, &pattern[ops[1].1..]),
+            ],
+            _ => return None,
+        };
+        let base = &pattern[..ops[0].0];
+        if base.contains(['*', '?', '[', ']']) {
+            return None;
+        }
+        let dash = match name.rfind('-') {
+            Some(d) => d,
+            None => return Some(false),
+        };
+        if &name[..dash] != base {
+            return Some(false);
+        }
+        let v = &name[dash + 1..];
+        for (op, eq, bound) in bounds {
+            let ord = version_cmp_model(v, bound)?;
+            let ok = match (op, eq) {
+                (b'>', false) => ord == std::cmp::Ordering::Greater,
+                (b'>', true) => ord != std::cmp::Ordering::Less,
+                (b'<', false) => ord == std::cmp::Ordering::Less,
+                _ => ord != std::cmp::Ordering::Greater,
+            };
+            if !ok {
+                return Some(false);
+            }
+        }
+        return Some(true);
+    }
+    if pattern.contains(['*', '?', '[', ']']) {
+        let p: Vec<char> = pattern.chars().collect();
+        let n: Vec<char> = name.chars().collect();
+        return glob_model(&p, &n);
+    }
+    Some(pattern == name)
+}
+
 /// Is version(a) strictly greater than version(b), in the order the library
 /// itself exposes through a single-bound pattern?
 fn strictly_greater(a: &str, b: &str) -> Result<bool, String> {
@@ -280,6 +467,21 @@ fn merge_step(
     let r = metered!(ctx, a.len() + b.len() + 64, pat.best_match(a, b));
     let ma = pat.matches(a);
     let mb = pat.matches(b);
+    for (n, m) in [(a, ma), (b, mb)] {
+        if let Some(want) = model_matches(pat.pattern(), n) {
+            ctx.probe(if want { "match-model-agrees-match" } else { "match-model-agrees-no-match" });
+            ensure!(
+                m == want,
+                "matches-differs-from-model",
+                "{}: pattern {:?} {} {:?} but by the pattern's definition (dewey: same base and every bound satisfied; braces: union of expansions; glob over the whole name; plain: identical string) it {}",
+                what,
+                pat.pattern(),
+                if m { "matches" } else { "does not match" },
+                n,
+                if want { "does" } else { "does not" }
+            );
+        }
+    }
     match r {
         None => ensure!(
             !ma && !mb,
@@ -666,6 +868,8 @@ impl Property for C06 {
             "duplicate-delivered-after-beaten",
             "both-match-one-without-dash",
             "dewey-model-pair",
+            "match-model-agrees-match",
+            "match-model-agrees-no-match",
             "dewey-model-pair-with-letters-or-modifiers",
         ]
     }
